@@ -186,6 +186,7 @@ void freevar_loc_print(freevar_loc * value)
         }
         break;
     case FREEVAR_FUNC:
+    case FREEVAR_FUNC_SELF:
         if (value->func_value)
         {
             func_print(value->func_value);
@@ -239,6 +240,8 @@ char * freevar_type_str(freevar_type type)
         return "FREEVAR_FREEVAR";
     case FREEVAR_FUNC:
         return "FREEVAR_FUNC";
+    case FREEVAR_FUNC_SELF:
+        return "FREEVAR_FUNC_SELF";
     }
     return "FREEVAR_???";
 }
